@@ -3,6 +3,8 @@
 package cluster
 
 import (
+	"reflect"
+
 	"github.com/google/uuid"
 	"github.com/semafind/semadb/models"
 )
@@ -36,4 +38,20 @@ func (c *ClusterNode) VerifDropRPCClients() {
 		client.Close()
 		delete(c.rpcClients, dest)
 	}
+}
+
+// VerifRPCClientState reports whether an RPC client for dest is cached by this node and, if so,
+// whether that client has already shut down (its connection is gone: net/rpc sets the unexported
+// fields `shutdown` / `closing`; they are only read here, through reflection). The fault harness
+// polls this after it tore a connection down on the server side, so that "the next call meets a
+// shut down cached client" is an established fact and not a matter of timing.
+func (c *ClusterNode) VerifRPCClientState(dest string) (cached bool, shutdown bool) {
+	c.rpcClientsMu.Lock()
+	defer c.rpcClientsMu.Unlock()
+	client, ok := c.rpcClients[dest]
+	if !ok {
+		return false, false
+	}
+	v := reflect.ValueOf(client).Elem()
+	return true, v.FieldByName("shutdown").Bool() || v.FieldByName("closing").Bool()
 }
